@@ -98,8 +98,13 @@ func propertyFuncs(p *Prog, prop string) []*ssa.Function {
 	return out
 }
 
+var effectProps = []string{"C04", "C05", "C08", "C11", "C12"}
+
 func contractMentions(c *Contract, prop string) bool {
 	if hasTag(c.Sweep, prop) {
+		return true
+	}
+	if c.Effects == "validation" && hasTag(effectProps, prop) {
 		return true
 	}
 	for _, cl := range c.Ensures {
@@ -138,6 +143,11 @@ func cmdCheck(args []string) int {
 		return 2
 	}
 	prop := fs.Arg(0)
+	var multi []string
+	if baseline && strings.Contains(prop, ",") {
+		multi = strings.Split(prop, ",")
+		prop = multi[0]
+	}
 	if *tier == "" {
 		*tier = os.Getenv("VERIF_TIER")
 	}
@@ -168,6 +178,20 @@ func cmdCheck(args []string) int {
 	sort.Strings(missing)
 	kf := loadKnownFindings()
 	fns := propertyFuncs(p, prop)
+	if len(multi) > 0 {
+		seenF := map[*ssa.Function]bool{}
+		for _, f := range fns {
+			seenF[f] = true
+		}
+		for _, q := range multi[1:] {
+			for _, f := range propertyFuncs(p, q) {
+				if !seenF[f] {
+					seenF[f] = true
+					fns = append(fns, f)
+				}
+			}
+		}
+	}
 	isSweep := false
 	if roots, ok := sweepRoots[prop]; ok {
 		isSweep = true
@@ -201,6 +225,9 @@ func cmdCheck(args []string) int {
 	opts := SolveOpts{Dir: dir, QuickMs: 1500, FallbackS: 45, Prop: prop}
 	if baseline {
 		opts = SolveOpts{Dir: dir, QuickMs: 2500, FallbackS: 12, Prop: prop}
+		if len(multi) > 0 {
+			opts.Prop = ""
+		}
 	}
 	if *tier == "thorough" {
 		opts = SolveOpts{Dir: dir, QuickMs: 5000, FallbackS: 180, Thorough: true, Prop: prop}
@@ -374,6 +401,37 @@ func cmdCheck(args []string) int {
 				viol(pk.o.Name, violationBody(prop, pk.r, pk.or)+"\nThe known finding "+pk.f.Key+" is listed, but its recorded input no longer reproduces on the real code:\n"+out, pk.or.Status == "sat")
 			}
 		}
+	}
+	if baseline && len(multi) > 0 {
+		// one run, several properties: record per property the tagged obligations that did not discharge
+		claims = loadSweepClaims()
+		if claims.Unproven == nil {
+			claims.Unproven = map[string]map[string][]string{}
+		}
+		for _, q := range multi {
+			nd := map[string][]string{}
+			tot, bad := 0, 0
+			for _, r := range runs {
+				if r.err != nil {
+					continue
+				}
+				for _, or := range r.results {
+					if !hasTag(or.O.Tags, q) || or.O.KFKey != "" {
+						continue
+					}
+					tot++
+					if or.Status != "unsat" && kf.lookup(q, or.O) == nil {
+						nd[r.key] = append(nd[r.key], or.O.Name)
+						bad++
+					}
+				}
+			}
+			claims.Unproven[q] = nd
+			fmt.Printf("govc: baseline for %s: %d obligations, %d not discharged (recorded as unproven)\n", q, tot, bad)
+		}
+		data, _ := json.MarshalIndent(claims, "", " ")
+		os.WriteFile(filepath.Join(verifDir(), "sweep_claims.json"), data, 0o644)
+		return 0
 	}
 	if baseline {
 		if claims.Unproven == nil {
